@@ -58,10 +58,10 @@ def encode_ers(step, options):
             if c["verb"] == "create":
                 creates.append(gP(P.nm(c.get("node", "")), P.g_newpod(c["obj"])))
             elif c["verb"] == "delete":
-                deletes.append(P.nm(c["name"]))
+                deletes.append(P.nm(c["name"] if c.get("ns") == op["ns"] else "?foreign:%s/%s" % (c.get("ns"), c["name"])))
             elif c["verb"] == "patch":
                 lab = (c["obj"]["metadata"].get("labels") or {})
-                (adds if P.K_CANARY in lab else dels).append(P.nm(c["name"]))
+                (adds if P.K_CANARY in lab else dels).append(P.nm(c["name"] if c.get("ns") == op["ns"] else "?foreign:%s/%s" % (c.get("ns"), c["name"])))
             else:
                 raise ValueError("unexpected call on a pod: %r" % c["verb"])
         elif c["kind"] == "ExtendedDaemonSetReplicaSet" and c["verb"] == "status_update":
@@ -102,7 +102,8 @@ def encode_eds(step, options):
                                               P.nm((o.get("spec") or {}).get("templateGeneration", "")), P.nm(o.get("_tmplHash", "")),
                                               P.g_selector((o.get("spec") or {}).get("selector")))))
         elif c["kind"] == "ExtendedDaemonSetReplicaSet" and c["verb"] == "delete":
-            writes.append(gC("ODeleteRs", P.nm(c["name"])))
+            # a deletion outside the ExtendedDaemonSet's namespace names no replica set of the model
+            writes.append(gC("ODeleteRs", P.nm(c["name"] if c.get("ns") == op["ns"] else "?foreign:%s/%s" % (c.get("ns"), c["name"]))))
         else:
             raise ValueError("unexpected call %s %s" % (c["verb"], c["kind"]))
     obs = gC("MkEdsObs", gL(writes), gB(step.get("requeue", False)), gZ(step.get("requeue_after", 0)), gB(bool(step.get("err"))),
